@@ -175,9 +175,6 @@ Definition triplet := (cname * cname * Q)%type.
 Definition is_plain_label (lbl : feat) (c : cname) : bool :=
   match c with Plain f => N.eqb f lbl | Rel _ _ => false end.
 
-Definition qmin (l : list Q) : Q := fold_right (fun x m => if Qle_bool x m then x else m) (hd 0 l) l.
-Definition qmax (l : list Q) : Q := fold_right (fun x m => if Qle_bool m x then x else m) (hd 0 l) l.
-Definition minmax (lo hi x : Q) : Q := (x - lo) / (hi - lo).
 
 (* dict comprehension: a later row with the same key overwrites the value but keeps the first insertion position *)
 Fixpoint set1 (d : list (feat * Q)) (k : feat) (v : Q) : list (feat * Q) :=
